@@ -160,6 +160,12 @@ def run_C05(res):
                                    "moves a2a3", "history", "quit"])
         scripts.insert(0, [f"setoption name UCI_Chess960 value {frc}", "isready", "ucinewgame", f"position startpos moves {g1} e1h1", "history",
                            "position fen bnrqkrnb/pppppppp/8/8/8/8/PPPPPPPP/BNRQKRNB w KQkq - 0 1 moves g1f3 g8f6 e1f1 e8f8 h1g2", "print", "history", "quit"])
+    # Unicode white space glued to a token: `split_ascii_whitespace` does not split on U+000B, U+0085, U+00A0, U+2003, U+3000, so a move
+    # token carrying one denotes no legal move and must be reported as unknown; a command word carrying one is an unknown command
+    for ws in ("\u00a0", "\x0b", "\u0085", "\u3000", "\u2003"):
+        scripts.insert(0, ["isready", "position startpos moves e2e4 e7e5" + ws, "print", "history", "quit"])
+        scripts.insert(0, ["isready", "position startpos moves e2e4", "moves e7e5" + ws, "history", "moves " + ws + "e7e5 g1f3", "history", "quit"])
+        scripts.insert(0, ["isready", ws + "position startpos moves e2e4", "history", "position startpos moves d2d4" + ws + " d7d5", "history", "quit"])
     process_compare(res, scripts, "position/moves script", as_property=True)
 
 
